@@ -12,8 +12,8 @@ CONSTANTS Weights = {50, 100}
  Kinds = {}
  ReconfCfgs <- McNegCfgs
  NewCfgs <- McNegNew
- Slices = {"sigs", "tamper", "payer", "junk", "box", "reconf"}
- Dev = {"Neg_OwnPayerUnchecked"}
+ Slices = {"gp"}
+ Dev = {"Neg_SchemeBlind"}
 VIEW View
-PROPERTIES ChangeCovered
+PROPERTIES SchemeBinds
 CHECK_DEADLOCK FALSE
